@@ -253,6 +253,63 @@ def split_trace(lines):
     return out
 
 
+
+HANG_SEEN = [False]
+
+
+def run_watched(cmd, env, progress_file, total, stall, rss_limit):
+    """run the harness under a watchdog: killed when the whole run exceeds `total` seconds, when the trace file has not
+    grown for `stall` seconds (an operation that hangs) or when the resident set passes `rss_limit` bytes (an operation
+    that allocates without bound). -> (returncode, output, None | 'hang:…' | 'crash:memory…')"""
+    logf = progress_file + ".log"
+    killed = None
+    with open(logf, "wb") as lf:
+        p = subprocess.Popen(cmd, env=env, stdout=lf, stderr=subprocess.STDOUT)
+        t0 = last_change = time.time()
+        last_size = -1
+        if HANG_SEEN[0]:
+            # re-runs after a watchdog kill (shrinking, final replay) need not wait as long
+            stall, rss_limit = min(stall, 8), min(rss_limit, 1 << 30)
+        while p.poll() is None:
+            time.sleep(0.05)
+            now = time.time()
+            try:
+                size = os.path.getsize(progress_file)
+            except OSError:
+                size = 0
+            if size != last_size:
+                last_size, last_change = size, now
+            rss = 0
+            try:
+                with open("/proc/%d/status" % p.pid) as f:
+                    for ln in f:
+                        if ln.startswith("VmRSS:"):
+                            rss = int(ln.split()[1]) * 1024
+                            break
+            except OSError:
+                pass
+            if rss > rss_limit:
+                killed = "crash:memory-runaway"
+                HANG_SEEN[0] = True
+            elif now - last_change > stall:
+                killed = "hang:no-answer"
+                HANG_SEEN[0] = True
+            elif now - t0 > total:
+                killed = "hang:run-exceeded-%ds" % total
+            if killed:
+                p.kill()
+                p.wait()
+                break
+    with open(logf, "rb") as f:
+        log = f.read().decode("utf-8", "replace")
+    try:
+        os.remove(logf)
+    except OSError:
+        pass
+    rc = p.returncode if not killed else -9
+    return rc, log, killed
+
+
 def execute(prop_cfg, ops, tag="run"):
     """ops: list of op lines (one flat list; sessions are separated by 'reset' ops).
     returns list of dicts {op, I, M, S, F}"""
@@ -264,12 +321,13 @@ def execute(prop_cfg, ops, tag="run"):
     open(opsf, "w").write("\n".join(ops) + "\n")
     env = dict(os.environ)
     env.setdefault("GOMEMLIMIT", "8GiB")
-    rc, log = run([prop_cfg["harness_bin"], opsf, trf] + prop_cfg.get("harness_args", []), env=env,
-                  timeout=prop_cfg.get("timeout", 3600))
+    rc, log, killed = run_watched([prop_cfg["harness_bin"], opsf, trf] + prop_cfg.get("harness_args", []), env, trf,
+                                  total=prop_cfg.get("timeout", 3600), stall=prop_cfg.get("stall", 90),
+                                  rss_limit=prop_cfg.get("rss_limit", 4 << 30))
     crashed = None
     if rc != 0:
-        # the harness process died (fatal runtime error, os.Exit, kill): the op it was executing
-        # is the first one without an answer in the (line-flushed) trace
+        # the harness process died (fatal runtime error, os.Exit, kill) or was killed by the watchdog (no progress /
+        # runaway memory): the op it was executing is the first one without an answer in the (line-flushed) trace
         done = []
         if os.path.exists(trf):
             with open(trf) as f:
@@ -278,7 +336,7 @@ def execute(prop_cfg, ops, tag="run"):
         if len(done) >= len(real_ops):
             raise BuildError("harness %s exited with %d" % (prop_cfg["harness"], rc), log[-4000:])
         why = [l for l in log.splitlines() if l.startswith(("fatal error", "panic:", "signal:"))]
-        crashed = "crash:" + (why[0][:120].replace(" ", "_") if why else "exit-%d" % rc)
+        crashed = killed or ("crash:" + (why[0][:120].replace(" ", "_") if why else "exit-%d" % rc))
         with open(trf, "w") as f:
             f.write("\n".join(done + ["%s => %s" % (real_ops[len(done)], crashed)]) + "\n")
     with open(trf) as f:
